@@ -21,6 +21,13 @@ def run(ctx):
                 jobs.append('vyu%d/-/I;%s' % (cap, p))      # vyukov: size must be a power of two >= 2
             pn = p.replace('wpush', 'push').replace('wpop', 'pop')
             jobs.append('nkb%d/-/I;%s' % (cap, pn))
+    # capacities that are not powers of two (rounded up): sequential fill / drain across wrap-arounds, and one concurrent program
+    for cap in ([5, 6, 7] if q else [5, 6, 7, 9, 12, 15, 17]):
+        fill = ','.join('push%d' % i for i in range(1, cap + 3))
+        drain = ','.join(['pop'] * (cap // 2 + 1))
+        more = ','.join('push%d' % i for i in range(40, 40 + cap))
+        jobs.append('nkb%d/-/I;;%s,%s,%s,%s,%s' % (cap, fill, drain, more, drain, drain))
+        jobs.append('nkb%d/-/I;%s;pop,push50,pop;pop,push51' % (cap, ','.join('push%d' % i for i in range(1, cap))))
     run_queues(ctx, jobs, pb=2 if q else 3, max_exec=600 if q else 30000)
     if not q:
         run_queues(ctx, jobs, pb=5, max_exec=0, mode='random', runs=1500, tagx='r')
